@@ -1,6 +1,7 @@
 """C17 - static type checker: only the 'same diagnostics each time' clause is decided statically."""
 import re
 
+from kern import short_fn, top_fn
 from rules.C14 import r1
 
 DESCRIPTION = ("C17 clause decided: 'gives the same diagnostics each time' - every iteration over a randomly seeded "
@@ -59,9 +60,47 @@ def r2_load_alias(ctx, F):
               fn=ty)
 
 
+def r3_no_unwrap_of_resolution_payload(ctx, F):
+    """the type checker runs on every parseable module, including ones whose identifiers scope resolution could not
+    resolve (undefined variables are reported, not fatal): the payload slot of an identifier / assignment target is an
+    Option, and typing code never unwraps it"""
+    n = bad = 0
+    for f in F.fns.values():
+        if f.crate != "starlark" or "src/typing/" not in f.span:
+            continue
+        for c in f.calls:
+            if c.bb in f.cleanup or c.indirect or not re.search(r"Option::<.*>::(unwrap|expect|unwrap_unchecked)$", c.name):
+                continue
+            n += 1
+            seen, work, pay = set(), re.findall(r"_\d+", c.args[0]), False
+            while work:
+                l = work.pop()
+                if l in seen:
+                    continue
+                seen.add(l)
+                for st in f.stmts:
+                    if st.lhs_local == l:
+                        if re.search(r"(IdentP|AssignIdentP)::payload\}", st.text()):
+                            pay = True
+                        work += re.findall(r"_\d+", st.text())
+                for d in f.calls:
+                    if d.dest_local == l and re.search(r"(as_ref|as_deref|as_mut|Deref>::deref|cloned|copied)$", d.name):
+                        work += [x for a in d.args for x in re.findall(r"_\d+", a)]
+            if pay:
+                bad += 1
+                ctx.bad("C17.R3", "unwrap-of-resolution-payload:" + short_fn(top_fn(F, f).qpath),
+                        "`%s` unwraps the scope-resolution payload of an identifier: for an identifier that was not "
+                        "resolved (an undefined variable, which is an ordinary diagnostic) the type checker panics"
+                        % short_fn(top_fn(F, f).qpath), fn=f, line=c.line)
+    ctx.floor("C17.R3", "unwrap/expect calls in the type checker inspected", n, 1)
+    if not bad:
+        ctx.ok("C17.R3", "no-unwrap-of-resolution-payload", "no unwrap of an identifier's resolution payload in typing/")
+
+
 def run(ctx):
     F = ctx.facts("core")
     r2_load_alias(ctx, F)
+    r3_no_unwrap_of_resolution_payload(ctx, F)
     total, nrand = r1(ctx, F, rule="C17.R1", only_files=r"starlark/src/(typing|analysis)/")
     ctx.floor("C17.R1", "HashMap/HashSet iteration sites in typing/ and analysis/", total, 7, inventory=True)
     ctx.info["random_hasher_iteration_sites"] = nrand
